@@ -411,8 +411,11 @@ impl Weekday {
     #[inline]
     pub fn wrapping_add<D: Into<i64>>(self, days: D) -> Weekday {
         let start = t::NoUnits::rfrom(self.to_monday_zero_offset_ranged());
-        // OK because all i64 values fit in a NoUnits.
-        let rhs = t::NoUnits::new(days.into()).unwrap();
+        // OK because all i64 values fit in a NoUnits. We reduce the number of
+        // days modulo 7 first so that the addition below can't wrap. (Wrapping
+        // in 64 bits and then reducing modulo 7 gives the wrong answer since 7
+        // doesn't divide 2^64.)
+        let rhs = t::NoUnits::new(days.into()).unwrap() % C(7);
         let end = start.wrapping_add(rhs) % C(7);
         Weekday::from_monday_zero_offset_ranged(end)
     }
@@ -454,7 +457,8 @@ impl Weekday {
     /// hand side of the `-` operator.
     #[inline]
     pub fn wrapping_sub<D: Into<i64>>(self, days: D) -> Weekday {
-        self.wrapping_add(-days.into())
+        // Reduce modulo 7 before negating so that `i64::MIN` doesn't overflow.
+        self.wrapping_add(-(days.into() % 7))
     }
 
     /// Starting with this weekday, this returns an unending iterator that
